@@ -1235,14 +1235,25 @@ class C20(Prop):
         return [case_line('sD15', g, inputs_all(2, [53]))]
 
     title = 'parsing is total'
-    bins = ALL.bins + ['h_deep']
+    bins = ALL.bins + ['h_deep', 'h_text']
 
     def custom_run(self, lines, tier, seed, jobs):
         import vcheck
-        tot, fails = vcheck.run_cases(self.name, lines, jobs=jobs, timeout=900 if tier == 'quick' else 3600)
+        tlines = [l for l in lines if l.startswith('T ')]
+        lines = [l for l in lines if not l.startswith('T ')]
+        tot, fails = vcheck.run_cases(self.name, lines, jobs=jobs, timeout=900 if tier == 'quick' else 3600) if lines else (
+            {'pairs': 0, 'corr_disagree': 0, 'pred_fail': 0, 'outcomes': {}, 'impl_s': 0.0, 'model_s': 0.0, 'crash': None, 'samples': [], 'nontrivial': 0}, [])
         # "no stack exhaustion": recursion and Pratt operator chains nested 10^5 deep on a 512 KiB thread (runtime evidence)
         if len(lines) >= 10:
             deep_probes(self, tot, fails, tier, jobs)
+            text_total_probes(self, tot, fails, tier, seed, jobs)
+        elif tlines:
+            for l in tlines:
+                rc, out = _text_impl_worker(l)
+                for o in out.split('\n'):
+                    if ' M P ' in o:
+                        tot['pred_fail'] += 1
+                        self.fail(tot, fails, 'pred', l, int(o.split(' ')[0].rpartition('.')[2]), 'PANIC ' + o)
         return tot, fails
     rule = ('union of all streams (C01, repetition incl. nullable items, emitters, recovery, decorations, context, state, four error '
             'kinds) on exhaustive small inputs, plus malformed inputs: random strings over the full Unicode range incl. combining marks, '
@@ -1949,8 +1960,8 @@ class C13(Prop):
 
 T_ALPHA = [48, 49, 55, 97, 90, 95, 32, 13, 10, 233, 45, 44]      # 0 1 7 a Z _ space CR LF e-acute - ,
 T_UNI = [0x0B, 0x0C, 0x09, 0x85, 0xA0, 0x1680, 0x2028, 0x2029, 0x3000, 0x3B1, 0x4E2D, 0x301, 0xB7, 0x660, 0xAA, 0xB5, 0xC3, 0xA9, 0xD7, 0x1D11E, 0x0E01]
-XID_START = {0xAA, 0xB5, 0xBA, 0xC3, 0xE9, 0x3B1, 0x4E2D, 0x0E01}
-XID_CONT_ONLY = {0xB7, 0x301, 0x660}
+XID_START = {0xAA, 0xB5, 0xBA, 0xC3, 0xE9, 0x3B1, 0x4E2D, 0x0E01, 0x915, 0x937, 0x1100, 0x1161, 0x11A8}
+XID_CONT_ONLY = {0xB7, 0x301, 0x660, 0xFE0F, 0x94D}
 UNI_WS = set(range(9, 14)) | {32, 0x85, 0xA0, 0x1680, 0x2028, 0x2029, 0x202F, 0x205F, 0x3000} | set(range(0x2000, 0x200B)) | {0x110000}
 
 
@@ -2042,6 +2053,51 @@ def text_oracle(inst, pname, params, toks):
     return None
 
 
+# code points whose clustering depends on what PRECEDES them (regional-indicator pairs, ZWJ + pictograph, Indic linker +
+# consonant, combining marks, Hangul jamo): the segmentation the `&Graphemes` input performs from every cursor position
+T_SEG = [0x1F1E6, 0x1F1E7, 0x1F1FA, 0x200D, 0x1F468, 0x1F469, 0x2764, 0xFE0F, 0x94D, 0x915, 0x937, 0x301, 0x1100, 0x1161, 0x11A8,
+         97, 48, 32, 10, 13]
+
+
+def seg_inputs(seed, n):
+    rng = random.Random(seed * 31 + 5)
+    out = []
+    for _ in range(n):
+        k = rng.randint(1, 7)
+        out.append(inputs_lit([rng.choice(T_SEG) for _ in range(k)]))
+    return out
+
+
+def text_total_probes(prop, tot, fails, tier, seed, jobs):
+    """C20 on the text layer: every text parser over &str, &[u8] and &Graphemes inputs full of code points whose clustering
+    is context dependent — no input may panic (the languages themselves are C14's business)"""
+    import multiprocessing
+    inp = ' '.join(seg_inputs(seed, 300 if tier == 'quick' else 3000)) + ' ' + inputs_all(3, [0x1F1E6, 0x200D, 0x1F468, 0x94D, 0x915, 10])
+    lines = []
+    for n, (pname, params) in enumerate([('ws', []), ('iws', []), ('digits', [10]), ('int', [16]), ('uident', []), ('pad_int', [10]), ('newline', [])]):
+        ps = f'{len(params)} ' + ' '.join(str(x) for x in params)
+        lines.append(f'T g{n}g gr {pname} {ps} I {inp}'.replace('  ', ' '))
+        lines.append(f'T g{n}c char {pname} {ps} I {inp}'.replace('  ', ' '))
+    with multiprocessing.Pool(jobs) as pool:
+        results = pool.map(_text_impl_worker, lines)
+    for line, (rc, out) in zip(lines, results):
+        if rc != 0:
+            tot['crash'] = f'h_text rc={rc}'
+        t = line.split()
+        inputs = expand_inputs(t[6 + int(t[4]):])
+        d = dict(l.split(' M ', 1) for l in out.split('\n') if ' M ' in l)
+        for k, toks in enumerate(inputs):
+            a = d.get(f'{t[1]}.{k}')
+            tot['pairs'] += 1
+            tot['nontrivial'] += 1
+            tot['outcomes']['text-total'] = tot['outcomes'].get('text-total', 0) + 1
+            if a is None:
+                fails.append(('missing', line, k, f'no observation for text::{t[3]} [{t[2]}] on {toks} (crash / hang?)'))
+            elif a.startswith('P '):
+                tot['pred_fail'] += 1
+                prop.fail(tot, fails, 'pred', line, k, f'PANIC text::{t[3]} [{t[2]}] on {toks} ({"".join(chr(c) for c in toks)!r}): {a}')
+
+
 CRLF = 0x110000      # pseudo-token: the grapheme cluster "\r\n" (white space, a newline, nothing else)
 REGEX_PATTERNS = ["[0-9]+", "[a-zA-Z_][a-zA-Z0-9_]*", "a|ab", "(ab)*", "a*", "ab|a", "[^ ]+", ".", "é+", "a?b",
                   r"\bb", "^a", r"\Bb", r"\ba\b", "(?m)^a", r"a\b"]
@@ -2117,7 +2173,7 @@ class C14(Prop):
                 lines.append(f'T x{n}{inst[0]} {inst} {pname} {ps} I {inp} {singles} {extra}'.replace('  ', ' '))
             # the same parsers over a `&Graphemes` input (`impl Char for &Grapheme`): tokens are grapheme clusters, CR LF is one
             if pname in ('int', 'digits', 'pad_int', 'uident', 'ws', 'iws', 'newline') and (not params or params[0] in (10, 16)):
-                lines.append(f'T y{n}g gr {pname} {ps} I {inp} {singles} {" ".join(rnd)}'.replace('  ', ' '))
+                lines.append(f'T y{n}g gr {pname} {ps} I {inp} {singles} {" ".join(rnd)} {" ".join(seg_inputs(seed, 150 if tier == "quick" else 1500))}'.replace('  ', ' '))
             n += 1
         # regex(p): what an anchored leftmost-first search matches at the position (oracle: Python's `re` on the same pattern
         # table; no model — the engine is external); &[u8] against &str on ASCII text
@@ -2160,6 +2216,10 @@ class C14(Prop):
                     continue
                 oc = a.split(' ')[0]
                 tot['outcomes'][oc] = tot['outcomes'].get(oc, 0) + 1
+                if oc == 'P':
+                    tot['pred_fail'] += 1
+                    self.fail(tot, fails, 'pred', line, k, f'PANIC text::{pname}{params} [{inst}] on {toks} ({"".join(chr(c) for c in toks if c < 0x110000)!r}): {a}')
+                    continue
                 # C18 inside the text parsers: the whole input was consumed, so the inspector must have been fed every token
                 a, _, ncl = a.partition(' g')
                 a, _, fed = a.partition(' i')
